@@ -64,6 +64,7 @@ def run(spec, ids):
             open(f'/verif/evidence/{i}.json', 'w').write(txt)
         sh('git checkout -- .', cwd='/repo')
         rc, out = sh('git status --porcelain', cwd='/repo'); assert out.strip() == '', out
+        sh('/verif/tools/build_harness.sh')   # the binary must not outlive the change it was built from
     meta = json.load(open(f'{dst}/meta.json'))
     meta.setdefault('check_results', {}).update(results)
     meta['caught_by'] = sorted({k.split(':')[0] for k, v in meta['check_results'].items() if v['exit'] == 1 and any(l.startswith('VIOLATION') for l in v['lines'])})
